@@ -72,3 +72,16 @@ check("C11", "S", "exploration", "differential (Cartesian parser as reference) +
       "conflicting-net lists (both orders) must raise.",
       "Trusted: avocado-vt's Cartesian parser as the reference the property names. only_vmX=<unknown variant> is rejected only later by "
       "object parsing and is not judged here.", "DESIGN.md §3 C11")
+
+ENGINES.append({"name": "L", "path": "checks/c14.py, vlib/par.py", "serves_properties": ["C14"],
+                "kind_free_text": "multi-process lock/transfer harness: forked processes on real files with recording proxies and failpoints inside "
+                                  "states.pool; offline interval / sequential-model oracles over the merged event log"})
+
+check("C14", "L", "fault_enumeration", "offline checker over recorded multi-process event logs: lock-interval overlap, containment of file accesses, replay of a sequential model in lock order; failpoints (sleep/raise/SIGKILL) inside the critical section",
+      "Every operation x failpoint (after acquire, after compare, mid copy, after copy, before unlock) x fault kind (sleep, exception, "
+      "SIGKILL) is enumerated with waiters queued behind the faulting holder, plus waiters whose timeout is shorter than the holder's "
+      "sleep; hundreds of random histories of 2-8 real processes (own cache files with unique token contents, equal contents, links, dead "
+      "links) run the real TransferOps on one pool path under real fcntl locks. Interleavings are sampled (the evidence counts concurrent "
+      "process pairs and lock intervals actually compared); the fault space is enumerated.",
+      "Trusted: the kernel's fcntl/lockf semantics and a system-wide monotonic clock; recorded lock intervals are subsets of the real hold "
+      "intervals; remote transports (which have no locking) are outside.", "DESIGN.md §3 C14")
